@@ -1,0 +1,48 @@
+//go:build verif
+
+// Contracts for the deductive verification in /verif (govc), topic tlslog: JSON helpers of
+// the key-exchange parameter types (property C33: decoding never panics). Comments only.
+// encoding/json itself is not modelled: json.Unmarshal may leave any pointer member of the
+// auxiliary struct nil (a member that is absent or null in the input), json.Marshal is opaque.
+
+package json
+
+// C33: decoding any input either fails with an error or fills the point; it never panics.
+// DEFECT (defect_ecpoint_nil): the code dereferences aux.X and aux.Y without a nil test;
+// obligations #nil.* of this function fail (see /verif/notes/tlslog.md, D2).
+//@ func (*ECPoint).UnmarshalJSON
+//@   requires p != nil
+//@   modifies p.X, p.Y
+
+//@ func (*ECPoint).MarshalJSON
+//@   requires p != nil
+//@   modifies nothing
+
+//@ func (*DHParams).UnmarshalJSON
+//@   requires p != nil
+//@   modifies *p
+
+//@ func (*DHParams).MarshalJSON
+//@   requires p != nil
+//@   modifies nothing
+
+//@ func (*cryptoParameter).UnmarshalJSON
+//@   requires p != nil
+//@   ensures  result == nil ==> p.Int != nil
+//@   modifies p.Int
+
+//@ func (*cryptoParameter).MarshalJSON
+//@   requires p != nil
+//@   modifies nothing
+
+//@ func (*TLSCurveID).UnmarshalJSON
+//@   requires c != nil
+//@   modifies *c
+
+//@ func (*TLSCurveID).Description
+//@   requires c != nil
+//@   modifies nothing
+
+//@ func (*TLSCurveID).MarshalJSON
+//@   requires c != nil
+//@   modifies nothing
